@@ -381,10 +381,82 @@ pub fn run(args: &Args) -> i32 {
         }
     }
 
+    if prop == "C01" {
+        // ---- beyond the representable durations: movie timescale near 2^32, track timescale
+        // 1-3, durations near 2^32, so that (sum of durations) x movie timescale / track
+        // timescale leaves 64 bits after two or three samples. The statement quantifies over
+        // every u32 duration and every timescale >= 1; what the header durations say there is
+        // not C01's business, but the samples are: whichever calls the muxer accepts must read
+        // back, and whichever it rejects must leave no trace. (The random stratum re-draws such
+        // histories because the structure oracles of C02 cannot be applied to them.)
+        let nb = args.scale(24_000, 300_000);
+        for i in 0..nb {
+            if !args.mine(i) {
+                continue;
+            }
+            let id = format!("beyond:{}", i);
+            if !args.want(&id) {
+                continue;
+            }
+            let mut rng = Rng::derive(args.seed, 0xB1, i);
+            let mut h = gen_history(&mut rng, 3, 10, 24, true);
+            h.timescale = *rng.pick(&[u32::MAX, u32::MAX - 1, 1u32 << 31, 4_000_000_000, 3_000_000_019]);
+            let small = *rng.pick(&[1u32, 1, 2, 3]);
+            for op in h.ops.iter_mut() {
+                match op {
+                    Op::Add(t) if !add_must_be_rejected(t) => t.timescale = small,
+                    Op::Write { s, .. } => {
+                        if rng.chance(3, 4) {
+                            s.duration = *rng.pick(&[u32::MAX, u32::MAX - 1, u32::MAX / 2 + 1, 4_000_000_000]);
+                        }
+                    }
+                    _ => {}
+                }
+            }
+            eval_beyond(&id, &h, &mut rep);
+            if rep.too_many_fails() {
+                return rep.finish();
+            }
+        }
+    }
     if prop == "C14" {
         run_c14_directed(args, &mut rep);
     }
     rep.finish()
+}
+
+/// C01 outside the region where the header durations are representable: no call may panic; the
+/// calls that returned an error are removed from the model ("leave no trace"), and when
+/// write_end succeeded the accepted samples must read back exactly.
+fn eval_beyond(case_id: &str, h: &History, rep: &mut Report) {
+    rep.begin_with(case_id, &json!({"history": h.short()}));
+    let o = execute(h);
+    let mut fails: Fails = Vec::new();
+    if let Some((i, c)) = o.run_calls.iter().enumerate().find(|(_, c)| matches!(c, CallRes::Panic(_))) {
+        fails.push(("call_panicked".into(), json!({"op": i, "res": c.tag()})));
+    }
+    let (_, rejected) = h.model();
+    for i in &rejected {
+        if o.run_calls.get(*i).map_or(false, |c| c.is_ok()) {
+            fails.push(("bad_call_accepted".into(), json!({"op": i})));
+        }
+    }
+    let ended = o.run_calls.len() == h.ops.len() && o.run_calls.last().map_or(false, |c| c.is_ok());
+    if fails.is_empty() && o.start.is_ok() && ended {
+        if let Some(out) = &o.out {
+            let eh = effective_history(h, &o.run_calls);
+            fails.extend(o.hook_fails.clone());
+            fails.extend(check_readback(&eh, MonReader::plain(Rc::new(out.clone())), out.len() as u64));
+            rep.add("outputs_checked_beyond_the_representable_durations", if representable(h) { 0 } else { 1 });
+            rep.add("calls_rejected_beyond_the_representable_durations", o.run_calls.iter().enumerate().filter(|(i, c)| !c.is_ok() && !rejected.contains(i)).count() as u64);
+        }
+    }
+    rep.cover(hash_str(&format!("beyond|{}", shape(h))));
+    for (rule, detail) in fails {
+        rep.fail("C01", case_id, &rule, json!({"detail": detail, "history": h.to_json()}));
+        break;
+    }
+    rep.end();
 }
 
 /// C14: exhaustive AAC parameter grid, exhaustive three-letter languages (thorough) and the
